@@ -3,7 +3,10 @@
  *
  *   mxossl role=client|server ver=T11|T12|T13 suite=<hex id> oname=<OpenSSL cipher name> [group=<openssl group name>]
  *          [gid=<iana id>] [sigalgs=<openssl sigalgs list>] [key=rsa|ec] [cauth=1] [resume=none|id|ticket]
- *          [sizes=n,n,...] [tag=<text>]
+ *          [sizes=n,n,...] [tag=<text>] [pad=<block>] [early=<bytes>] [suite2=<hex id> oname2=<name>]
+ *   pad      TLS 1.3 record padding to a multiple of <block> on both sides (MatrixSSL tls13BlockSize, OpenSSL block padding)
+ *   early    MatrixSSL server with early data enabled; on the resumed connection the OpenSSL client sends <bytes> of 0-RTT data
+ *   suite2   on the second connection both sides are restricted to another suite (of another hash: the ticket cannot be used)
  *
  * role is MatrixSSL's role.  Runs a handshake, sends each payload size in both directions and compares what
  * arrives with what was sent, closes; with resume= runs a second connection that offers the first one's session.
@@ -118,6 +121,9 @@ int main(int argc, char **argv)
     int suite = (int) strtol(arg(argc, argv, "suite", "0"), NULL, 0), cauth = atoi(arg(argc, argv, "cauth", "0")), gid = atoi(arg(argc, argv, "gid", "0"));
     int mxclient = !strcmp(role, "client"), t13 = !strcmp(ver, "T13"), psk = strstr(oname, "PSK") != NULL;
     int conn, nconn = strcmp(resume, "none") ? 2 : 1;
+    int pad = atoi(arg(argc, argv, "pad", "0")), early = atoi(arg(argc, argv, "early", "0")), suite2 = (int) strtol(arg(argc, argv, "suite2", "0"), NULL, 0);
+    const char *oname2 = arg(argc, argv, "oname2", NULL);
+    int earlyok = -1, oearly = -1;
     char cert[256], pkey[256], ca[256];
     sslKeys_t *keys = NULL;
     sslSessionId_t *sid = NULL;
@@ -159,6 +165,7 @@ int main(int argc, char **argv)
         SSL_CTX_set_min_proto_version(ctx, v); SSL_CTX_set_max_proto_version(ctx, v);
     }
     if (t13) SSL_CTX_set_ciphersuites(ctx, oname); else SSL_CTX_set_cipher_list(ctx, oname);
+    if (pad > 0) SSL_CTX_set_block_padding(ctx, (size_t) pad);
     if (group) SSL_CTX_set1_groups_list(ctx, group);
     if (sigalgs) SSL_CTX_set1_sigalgs_list(ctx, sigalgs);
     SSL_CTX_load_verify_locations(ctx, ca, NULL);
@@ -185,6 +192,8 @@ int main(int argc, char **argv)
         memset(&p, 0, sizeof(p)); memset(&opts, 0, sizeof(opts));
         if (mxclient) matrixSslSessOptsSetClientTlsVersions(&opts, &pv, 1); else matrixSslSessOptsSetServerTlsVersions(&opts, &pv, 1);
         if (!strcmp(resume, "ticket")) opts.ticketResumption = 1;
+        if (pad > 0) opts.tls13BlockSize = pad;
+        if (early > 0 && !mxclient) opts.tls13SessionMaxEarlyData = 16384;
         if (gid) { uint16_t g = (uint16_t) gid; matrixSslSessOptsSetKeyExGroups(&opts, &g, 1, 1); }
         else if (arg(argc, argv, "gids", NULL))
         {
@@ -195,7 +204,7 @@ int main(int argc, char **argv)
         }
         if (mxclient)
         {
-            psCipher16_t cs = (psCipher16_t) suite;
+            psCipher16_t cs = (psCipher16_t) ((conn == 1 && suite2) ? suite2 : suite);
             rc = matrixSslNewClientSession(&p.ssl, keys, sid, &cs, 1, NULL, "localhost", NULL, NULL, &opts);
         }
         else rc = matrixSslNewServerSession(&p.ssl, keys, cauth ? cert_cb : NULL, &opts);
@@ -206,8 +215,21 @@ int main(int argc, char **argv)
         SSL_set_bio(p.o, p.oin, p.oout);
         if (mxclient) SSL_set_accept_state(p.o); else { SSL_set_connect_state(p.o); if (osess) SSL_set_session(p.o, osess); }
         if (psk) { /* PSK suites need callbacks on the OpenSSL side; not wired: reported as not applicable */ }
+        if (conn == 1 && oname2) { if (t13) SSL_set_ciphersuites(p.o, oname2); else SSL_set_cipher_list(p.o, oname2); }
+        if (conn == 1 && early > 0 && !mxclient)
+        {
+            /* 0-RTT: the OpenSSL client writes early data behind its ClientHello (and its compatibility ChangeCipherSpec) */
+            size_t w = 0;
+            int r = SSL_write_early_data(p.o, payload + 5, (size_t) early, &w);
+            oearly = (r == 1 && (int) w == early) ? 1 : 0;
+        }
         m2o(&p);
         pump(&p);
+        if (conn == 1 && early > 0 && !mxclient)
+        {
+            /* the server application must have received exactly those bytes, before anything else */
+            earlyok = (p.rxn >= early && !memcmp(p.rx, payload + 5, early) && SSL_get_early_data_status(p.o) == SSL_EARLY_DATA_ACCEPTED) ? 1 : 0;
+        }
         done[conn] = matrixSslHandshakeIsComplete(p.ssl) ? 1 : 0;
         odone[conn] = SSL_is_init_finished(p.o) ? 1 : 0;
         /* application data both ways */
@@ -258,10 +280,10 @@ int main(int argc, char **argv)
     }
     printf("{\"tag\":\"%s\",\"role\":\"%s\",\"ver\":\"%s\",\"suite\":%d,\"oname\":\"%s\",\"key\":\"%s\",\"cauth\":%d,\"resume\":\"%s\",\"group\":\"%s\",\"nconn\":%d,\"hrr\":%d,"
            "\"done\":[%d,%d],\"odone\":[%d,%d],\"mres\":[%d,%d],\"ores\":[%d,%d],\"dataok\":[%d,%d],\"odataok\":[%d,%d],\"mxsuite\":[%d,%d],\"mver\":[\"%s\",\"%s\"],"
-           "\"over\":[\"%s\",\"%s\"],\"ocipher\":[\"%s\",\"%s\"],\"ogroup\":[\"%s\",\"%s\"],\"mgrp\":[%d,%d],\"mxerr\":[%d,%d],\"oerr\":[%d,%d]}\n",
+           "\"over\":[\"%s\",\"%s\"],\"ocipher\":[\"%s\",\"%s\"],\"ogroup\":[\"%s\",\"%s\"],\"mgrp\":[%d,%d],\"mxerr\":[%d,%d],\"oerr\":[%d,%d],\"pad\":%d,\"early\":%d,\"earlyok\":%d,\"oearly\":%d,\"suite2\":%d,\"oname2\":\"%s\"}\n",
            tag, role, ver, suite, oname, key, cauth, resume, group ? group : "-", nconn, atoi(arg(argc, argv, "hrr", "0")), done[0], done[1], odone[0], odone[1], mres[0], mres[1], ores[0], ores[1],
            dataok[0], dataok[1], odataok[0], odataok[1], mxsuite[0], mxsuite[1], mver[0], mver[1], over[0], over[1], ocipher[0], ocipher[1], ogroup[0], ogroup[1], mgrp[0], mgrp[1],
-           mxerr[0], mxerr[1], oerr[0], oerr[1]);
+           mxerr[0], mxerr[1], oerr[0], oerr[1], pad, early, earlyok, oearly, suite2, oname2 ? oname2 : "-");
     if (osess) SSL_SESSION_free(osess);
     SSL_CTX_free(ctx);
     if (sid) matrixSslDeleteSessionId(sid);
